@@ -3,7 +3,8 @@
    ops: M<i>:<name> (MakeSymbol), G<i>:<prefix> (GenSymbol), D<i> (Duplicate), C<i> (Clone)
    names: characters outside [A-Za-z0-9_] are written ~XX (hex of the byte)
    observation (IMPLOBS and the MODEL column):
-     OUT,OUT,..|next=..|size=+N|inv=ok|eq=BITS|hash=V,V,..
+     OUT,OUT,..|next=..|size=+N|inv=ok|eq=BITS|hash=V,V,..[|ne=BITS|leq=BITS|aeq=BITS]
+     (the last three when route <> api: (!= a b), (== (list a) (list b)), (== [a] [b]) per pair)
      OUT = name/num  or  -  (Duplicate/Clone)  or  BADMEMBER / FUEL
    SPEC column: "ok", or why the injective-table specification rejects the
    implementation's answers. *)
@@ -100,6 +101,7 @@ let () =
         | None -> failwith ("bad pre " ^ e)) (split_on ',' (field kvs "pre")) in
       let ops = List.map parse_op (split_on ',' (field kvs "ops")) in
       let st0 = { symtable = pre; revsymtable = List.map (fun (n, k) -> (k, n)) pre; nexts = counters } in
+      let ext = (field kvs "route" <> "api") in
       let (st1, outs) = run st0 ops in
       let msyms = syms_of outs in
       let model =
@@ -108,7 +110,13 @@ let () =
         ^ "|size=+" ^ string_of_int (List.length st1.symtable - List.length pre)
         ^ "|inv=" ^ (if inv_check st1 then "ok" else "BROKEN")
         ^ "|eq=" ^ eq_bits (fun (_, a) (_, b) -> compare_symbol a b = Z0) msyms
-        ^ "|hash=" ^ hash_obs (fun (_, a) (_, b) -> hash_symbol a = hash_symbol b && compare_symbol a b = Z0) msyms in
+        ^ "|hash=" ^ hash_obs (fun (_, a) (_, b) -> hash_symbol a = hash_symbol b && compare_symbol a b = Z0) msyms
+        ^ (if ext then
+             (* (!= a b) with the operands swapped; one-element lists / arrays compare as their elements *)
+             "|ne=" ^ eq_bits (fun (_, a) (_, b) -> compare_symbol b a <> Z0) msyms
+             ^ "|leq=" ^ eq_bits (fun (_, a) (_, b) -> compare_symbols [a] [b] = Z0) msyms
+             ^ "|aeq=" ^ eq_bits (fun (_, a) (_, b) -> compare_symbols [a] [b] = Z0) msyms
+           else "") in
       (* the specification judges the implementation's own answers *)
       let impl = field kvs "impl" in
       let spec =
@@ -126,9 +134,13 @@ let () =
             let isyms = syms_of iouts in
             let want_eq = eq_bits (fun (a, _) (b, _) -> name_eqb a b) isyms in
             let want_hash = hash_obs (fun (a, _) (b, _) -> name_eqb a b) isyms in
+            let want_ne = eq_bits (fun (a, _) (b, _) -> not (name_eqb a b)) isyms in
             if seg "inv" <> "ok" then "bad:tables-not-inverse"
             else if seg "eq" <> want_eq then "bad:equality want " ^ want_eq
             else if seg "hash" <> want_hash then "bad:hash want " ^ want_hash
+            else if ext && seg "ne" <> want_ne then "bad:inequality want " ^ want_ne
+            else if ext && seg "leq" <> want_eq then "bad:list-equality want " ^ want_eq
+            else if ext && seg "aeq" <> want_eq then "bad:array-equality want " ^ want_eq
             else "ok"
         end in
       Printf.printf "%s\t%s\t%s\n" id model spec
